@@ -62,6 +62,7 @@ Fails(e) == CASE e.ev = "gps" -> GpsFails(e)
               [] e.ev = "airtime" -> AirFails(e)
               [] e.ev = "eirp" -> EirpFails(e)
               [] e.ev = "eirpdec" -> EirpDecFails(e)
+              [] e.ev = "hang" -> <<e.prop \o ".hang">>    \* a call that never returned (recorded by the watchdog of the harness)
               [] OTHER -> <<"unknown-event">>
 Init == l = 1 /\ nfail = 0
 Next == /\ l <= Len(Tr)
